@@ -109,6 +109,10 @@ def plan(tier, seed):
             for S in extra:
                 g.append({"kind": "super", "xtal": name, "variant": "as-is", "S": S, "symprec": 1e-5, "mag": mag, "mass": mass, "extsym": ext})
         groups.append(g)
+    # (2b) the Smith normal form routine itself on every integer matrix over {-2..2} (1.95e6, 1.5e6 nonsingular)
+    blk = 5 ** 9 // 125
+    for k in range(125):
+        groups.append([{"kind": "snf", "lo": k * blk, "hi": (k + 1) * blk}])
     # (3) primitive cells
     pm_S = [np.eye(3, dtype=int).tolist(), [[2, 0, 0], [0, 2, 0], [0, 0, 2]], [[2, 0, 0], [0, 1, 0], [0, 0, 3]],
             [[1, 1, 0], [-1, 1, 0], [0, 0, 1]], [[1, 1, 0], [0, 2, 0], [-1, 0, 2]], [[2, 1, 0], [0, 1, 0], [0, 0, 1]]]
@@ -511,9 +515,54 @@ def judge_primitive(c, sc, pr, P, mags, trans):
     return None
 
 
+def run_snf(case, seed):
+    """SNF3x3 on a block of the integer matrices over {-2..2}: D = P A Q with D diagonal and P, Q unimodular (the definition)."""
+    from phonopy.structure.snf import SNF3x3
+
+    vals = (-2, -1, 0, 1, 2)
+    n = bad = 0
+    first = None
+    for idx in range(case["lo"], case["hi"]):
+        m = []
+        k = idx
+        for _ in range(9):
+            m.append(vals[k % 5])
+            k //= 5
+        a, b, c_, d, e, f, g, h, i = m
+        det = a * (e * i - f * h) - b * (d * i - f * g) + c_ * (d * h - e * g)
+        if det == 0:
+            continue
+        A = np.array(m, dtype="int64").reshape(3, 3)
+        n += 1
+        why = None
+        try:
+            snf = SNF3x3(A)
+            snf.run()
+            D, P, Q = (np.array(x, dtype="int64") for x in (snf.D, snf.P, snf.Q))
+            if (D != np.diag(np.diag(D))).any():
+                why = "D is not diagonal: %s" % D.tolist()
+            elif (P @ A @ Q != D).any():
+                why = "P A Q != D"
+            elif abs(int(round(np.linalg.det(P)))) != 1 or abs(int(round(np.linalg.det(Q)))) != 1:
+                why = "P or Q is not unimodular"
+            elif abs(int(np.prod(np.diag(D)))) != abs(det):
+                why = "|det D| = %d, |det A| = %d" % (abs(int(np.prod(np.diag(D)))), abs(det))
+        except Exception as ex:
+            why = "raised %s" % type(ex).__name__
+        if why:
+            bad += 1
+            first = first or (A.tolist(), why)
+    if bad:
+        return _fail("C04/snf/not-a-smith-normal-form", "SNF3x3 of %s: %s (%d of the %d nonsingular matrices of this block)" % (first[0], first[1], bad, n), nontrivial=True, transitions=n)
+    return dict(ok=True, outcome="snf-block-ok", nontrivial=True, transitions=n)
+
+
 def run_group(cases, seed):
     out = []
     for case in cases:
+        if case["kind"] == "snf":
+            out.append(run_snf(case, seed))
+            continue
         if case["kind"] == "super":
             out.append(run_super(case, seed))
         elif case["kind"] == "prim-noisy":
